@@ -1093,6 +1093,8 @@ fn run_one(s: &Stored, cfg: &SimConfig, decider: Decider) -> (Observed, Option<V
 fn failure(s: &Stored, cfg: &SimConfig, obs: &Observed, v: Viol) -> Failure {
     let fault = if let Some(k) = cfg.fail_alloc_at {
         format!("fd allocation #{k} fails with EMFILE")
+    } else if let Some(k) = cfg.fail_write_at {
+        format!("write #{k} to a regular file fails with ENOSPC")
     } else if s.nofile > 0 {
         format!("RLIMIT_NOFILE soft limit {}", s.nofile)
     } else {
@@ -1207,6 +1209,27 @@ impl Prop for C09 {
             let (obs, v) = run_one(&faulted, &cfg, Decider::record(Rng::stream(seed, 950, index)));
             note(stats, &obs, k as u64);
             stats.count("mode:emfile-at-k", 1);
+            if let Some(v) = v {
+                return Some(failure(&faulted, &cfg, &obs, v));
+            }
+        }
+        // every position at which a write to a regular file can fail (full
+        // disk): here-document bodies being stored, output of the commands,
+        // diagnostics. Same never-relaxed invariants.
+        let w_max = obs0.file_io.0.min(match tier {
+            Tier::Quick => 12,
+            Tier::Thorough => 40,
+        });
+        stats.count("enumerated_write_failure_positions", w_max as u64);
+        for k in 1..=w_max {
+            let cfg = SimConfig {
+                fail_write_at: Some(k),
+                fail_alloc_pid: None,
+                ..Default::default()
+            };
+            let (obs, v) = run_one(&faulted, &cfg, Decider::record(Rng::stream(seed, 955, index)));
+            note(stats, &obs, 500 + k as u64);
+            stats.count("mode:enospc-at-k", 1);
             if let Some(v) = v {
                 return Some(failure(&faulted, &cfg, &obs, v));
             }
